@@ -211,6 +211,9 @@ def _dimension_link(steps, cl, where):
     """the statements of a linkorder step list that touch the link group, in RoleWrite's vocabulary"""
     out = []
     for s in steps:
+        if s == ".guard .sameFile":
+            out.append(".guard .sameFile")      # the pre-check that is about the object: the test create_link makes
+            continue
         if s.startswith(".guard ") or s in (".setIndexAttr", ".setColAttr", ".deleteTicksIfAny"):
             continue                    # about the index / the ticks: Generated/LinkOrder.lean
         if s == ".removeLinkIfAny":
